@@ -44,6 +44,7 @@ func runC01(c *Ctx) {
 	}
 	codecRule(c, "C01.codec")
 	keyflowRule(c, "C01.keyflow")
+	keyInjRule(c, "C01.keyinj")
 	universeRule(c, "C01.universe")
 	rowCountRule(c, "C01.rowcount")
 	unknownColRule(c, "C01.unknowncol", true)
@@ -362,6 +363,80 @@ func unknownColRule(c *Ctx, rule string, withCacheOrder bool) {
 		})
 	}
 	c.r.min[rule] = 2
+	if !withCacheOrder {
+		groupByResolvedRule(c, rule, colsF)
+	}
+}
+
+// groupByResolvedRule: Execute never reports success without having resolved the group-by list against the schema. The
+// resolution (the lookup of each listed column in the schema's column map, which is what rejects an unknown column) is
+// reached on every path to a successful return: a shortcut that returns early (nothing matched, cached total, …) makes
+// the error for an unknown column depend on the data.
+func groupByResolvedRule(c *Ctx, rule string, colsF *types.Var) {
+	ex := c.a.Execute
+	isGB := func(i ssa.Instruction) bool {
+		lk, ok := i.(*ssa.Lookup)
+		if !ok || !lk.CommaOk || path(lk.X).lastField() != colsF {
+			return false
+		}
+		// the key is an element of a list of strings (the group-by list), not a field of an expression node
+		idx := lk.Index
+		if ld, ok := idx.(*ssa.UnOp); ok && ld.Op == token.MUL {
+			if _, ok := ld.X.(*ssa.IndexAddr); ok {
+				return true
+			}
+		}
+		if _, ok := idx.(*ssa.Extract); ok { // range over a slice yields (index, element) through Next for strings only; keep for safety
+			return false
+		}
+		return false
+	}
+	inLoopHeaderOf := map[*ssa.BasicBlock]bool{}
+	for _, fn := range c.scope(ex, 2) {
+		for _, l := range loopsOf(fn) {
+			has := false
+			for b := range l.blocks {
+				for _, ins := range b.Instrs {
+					if isGB(ins) {
+						has = true
+					}
+				}
+			}
+			if has {
+				inLoopHeaderOf[l.header] = true
+			}
+		}
+	}
+	direct := func(i ssa.Instruction) bool {
+		return isGB(i) || inLoopHeaderOf[i.Block()]
+	}
+	isEvent := func(i ssa.Instruction) bool {
+		if direct(i) {
+			return true
+		}
+		if call, ok := i.(*ssa.Call); ok {
+			if h := calleeFunc(&call.Call); h != nil && c.w.inModule(h) && h != ex {
+				return c.fc.mayContain(h, direct, 2)
+			}
+		}
+		return false
+	}
+	any := false
+	instrsOf(c.scope(ex, 2), func(i ssa.Instruction) {
+		if isGB(i) {
+			any = true
+		}
+	})
+	key := safeFname(ex) + ": group-by resolved before success"
+	if !any {
+		c.r.bad(rule, key, "no lookup of the group-by columns in the schema is reachable from Execute: an unknown group-by column cannot be rejected", []string{c.w.pos(ex.Pos())})
+		return
+	}
+	if p := c.fc.pathAvoiding(ex, nil, isSuccessReturn, isEvent); p != nil {
+		c.r.bad(rule, key, "Execute can return a result without having looked the group-by columns up in the schema: whether an unknown group-by column is an error then depends on the data (e.g. on whether anything matched)", []string{c.w.ipos(p[len(p)-1])}, c.fc.witnessStrings(p)...)
+	} else {
+		c.r.ok(rule, key, "every successful return has passed the resolution of the group-by list", c.w.pos(ex.Pos()))
+	}
 }
 
 func nilBitmapRule(c *Ctx, rule string) {
@@ -778,6 +853,11 @@ func evalCallElem(ec *ssa.Call) (ssa.Value, bool) {
 
 // elementLoop is operandLoop for an arbitrary per-element call (elemCall returns the element the call works on).
 func elementLoop(c *Ctx, fn *ssa.Function, v ssa.Value, isSrc func(ssa.Value) bool, elemCall func(*ssa.Call) (ssa.Value, bool), depth int) (bool, string) {
+	return elementLoopX(c, fn, v, isSrc, elemCall, depth, false)
+}
+
+// elementLoopX: single = the per-element call has one result (its value is collected) instead of (value, error).
+func elementLoopX(c *Ctx, fn *ssa.Function, v ssa.Value, isSrc func(ssa.Value) bool, elemCall func(*ssa.Call) (ssa.Value, bool), depth int, single bool) (bool, string) {
 	if depth > 2 {
 		return false, "operand collection is nested too deep in helpers"
 	}
@@ -796,7 +876,7 @@ func elementLoop(c *Ctx, fn *ssa.Function, v ssa.Value, isSrc func(ssa.Value) bo
 			if isNilConst(rv) {
 				continue // error returns
 			}
-			if ok, why := elementLoop(c, callee, rv, func(x ssa.Value) bool { return x == srcParam }, elemCall, depth+1); !ok {
+			if ok, why := elementLoopX(c, callee, rv, func(x ssa.Value) bool { return x == srcParam }, elemCall, depth+1, single); !ok {
 				return false, why
 			}
 		}
@@ -860,13 +940,23 @@ func elementLoop(c *Ctx, fn *ssa.Function, v ssa.Value, isSrc func(ssa.Value) bo
 		ap = ac
 		el = variadicElem(ac.Call.Args[1])
 	}
-	e, ok := el.(*ssa.Extract)
-	if !ok || e.Index != 0 {
-		return false, "what is appended is not an operand's evaluation result"
-	}
-	ec, ok := e.Tuple.(*ssa.Call)
-	if !ok {
-		return false, "what is appended is not an operand's evaluation result"
+	var ec *ssa.Call
+	if single {
+		cl, ok := el.(*ssa.Call)
+		if !ok {
+			return false, "what is collected is not the result of the per-operand call"
+		}
+		ec = cl
+	} else {
+		e, ok := el.(*ssa.Extract)
+		if !ok || e.Index != 0 {
+			return false, "what is appended is not an operand's evaluation result"
+		}
+		cl, ok := e.Tuple.(*ssa.Call)
+		if !ok {
+			return false, "what is appended is not an operand's evaluation result"
+		}
+		ec = cl
 	}
 	elemV, ok := elemCall(ec)
 	if !ok {
@@ -915,4 +1005,287 @@ func elementLoop(c *Ctx, fn *ssa.Function, v ssa.Value, isSrc func(ssa.Value) bo
 		return false, "an operand can be evaluated without its result being combined (it is skipped on some path)"
 	}
 	return true, ""
+}
+
+// keyInjRule: the bytes getValueIndex hashes determine (column, value). Two recognisable ways of breaking that are
+// reported; shapes the rule does not recognise are left to C01.keyflow (both arguments reach the hash):
+//   - truncation: the hash input is assembled with copy() in a fixed-size array (copy silently stops at the end of the
+//     destination) and no dominating test bounds the total length of everything copied by the array's length — two
+//     values that differ only beyond the cut get the same index and their bitmaps merge;
+//   - no separator: column and value are concatenated with nothing between them, so ("ab","c") and ("a","bc") collide.
+func keyInjRule(c *Ctx, rule string) {
+	gvi := c.a.GetValueIndex
+	if gvi == nil || len(gvi.Params) != 2 {
+		return
+	}
+	name := safeFname(gvi)
+	// linear forms over len(param)
+	type linForm struct {
+		coef map[ssa.Value]int64
+		k    int64
+	}
+	var lf func(v ssa.Value, depth int) (linForm, bool)
+	lf = func(v ssa.Value, depth int) (linForm, bool) {
+		if depth > 6 {
+			return linForm{}, false
+		}
+		v = peelConv(v)
+		if k, ok := constInt(v); ok {
+			return linForm{map[ssa.Value]int64{}, k}, true
+		}
+		switch x := v.(type) {
+		case *ssa.Call:
+			if b, ok := x.Call.Value.(*ssa.Builtin); ok && b.Name() == "len" {
+				a := peelConv(x.Call.Args[0])
+				if s, ok := constString(a); ok {
+					return linForm{map[ssa.Value]int64{}, int64(len(s))}, true
+				}
+				if p, ok := a.(*ssa.Parameter); ok {
+					return linForm{map[ssa.Value]int64{p: 1}, 0}, true
+				}
+				if al, ok := a.(*ssa.Alloc); ok {
+					if n, ok := arrayLen(al.Type()); ok {
+						return linForm{map[ssa.Value]int64{}, n}, true
+					}
+				}
+				if sl, ok := a.(*ssa.Slice); ok && sl.Low == nil && sl.High == nil {
+					if al, ok := sl.X.(*ssa.Alloc); ok {
+						if n, ok := arrayLen(al.Type()); ok {
+							return linForm{map[ssa.Value]int64{}, n}, true
+						}
+					}
+				}
+			}
+		case *ssa.BinOp:
+			if x.Op == token.ADD || x.Op == token.SUB {
+				a, ok1 := lf(x.X, depth+1)
+				b, ok2 := lf(x.Y, depth+1)
+				if !ok1 || !ok2 {
+					return linForm{}, false
+				}
+				out := linForm{map[ssa.Value]int64{}, a.k}
+				for p, cf := range a.coef {
+					out.coef[p] += cf
+				}
+				sg := int64(1)
+				if x.Op == token.SUB {
+					sg = -1
+				}
+				out.k += sg * b.k
+				for p, cf := range b.coef {
+					out.coef[p] += sg * cf
+				}
+				return out, true
+			}
+		}
+		return linForm{}, false
+	}
+	found := false
+	for _, fn := range c.scope(gvi, 1) {
+		// --- truncation ---
+		type buf struct {
+			al     *ssa.Alloc
+			n      int64
+			copies []*ssa.Call
+		}
+		bufs := map[*ssa.Alloc]*buf{}
+		allInstrs(fn, func(i ssa.Instruction) {
+			call, ok := i.(*ssa.Call)
+			if !ok {
+				return
+			}
+			b, isB := call.Call.Value.(*ssa.Builtin)
+			if !isB || b.Name() != "copy" {
+				return
+			}
+			sl, ok := call.Call.Args[0].(*ssa.Slice)
+			if !ok {
+				return
+			}
+			al, ok := sl.X.(*ssa.Alloc)
+			if !ok {
+				return
+			}
+			n, ok := arrayLen(al.Type())
+			if !ok {
+				return
+			}
+			if bufs[al] == nil {
+				bufs[al] = &buf{al: al, n: n}
+			}
+			bufs[al].copies = append(bufs[al].copies, call)
+		})
+		for _, b := range bufs {
+			// is (a slice of) this array hashed?
+			hashed := false
+			allInstrs(fn, func(i ssa.Instruction) {
+				if call, ok := i.(*ssa.Call); ok && hashSinks[calleeName(&call.Call)] {
+					for _, a := range call.Call.Args {
+						if sl, ok := a.(*ssa.Slice); ok && sl.X == ssa.Value(b.al) {
+							hashed = true
+						}
+					}
+				}
+			})
+			if !hashed {
+				continue
+			}
+			found = true
+			// total length of everything copied
+			total := linForm{map[ssa.Value]int64{}, 0}
+			okTotal := true
+			for _, cp := range b.copies {
+				src := peelConv(cp.Call.Args[1])
+				switch {
+				case func() bool { _, ok := constString(src); return ok }():
+					s, _ := constString(src)
+					total.k += int64(len(s))
+				default:
+					if p, ok := src.(*ssa.Parameter); ok {
+						total.coef[p]++
+					} else {
+						okTotal = false
+					}
+				}
+			}
+			key := name + ": fixed buffer"
+			if !okTotal {
+				c.r.ok(rule, key, "the hash input is assembled in a fixed-size array from sources the rule does not measure; truncation not decided here", c.w.ipos(b.copies[0]))
+				continue
+			}
+			// dominating upper bound at the first copy
+			first := b.copies[0]
+			for _, cp := range b.copies {
+				if cp.Block().Dominates(first.Block()) && cp != first {
+					first = cp
+				}
+			}
+			fits := false
+			for _, cm := range cmpsAt(first) {
+				if cm.Y == nil {
+					continue
+				}
+				x, okx := lf(cm.X, 0)
+				y, oky := lf(cm.Y, 0)
+				if !okx || !oky {
+					continue
+				}
+				// normalise to d := x - y  (op) 0
+				d := linForm{map[ssa.Value]int64{}, x.k - y.k}
+				for p, cf := range x.coef {
+					d.coef[p] += cf
+				}
+				for p, cf := range y.coef {
+					d.coef[p] -= cf
+				}
+				op := cm.Op
+				if op == token.GTR || op == token.GEQ {
+					// -d (<|<=) 0
+					for p := range d.coef {
+						d.coef[p] = -d.coef[p]
+					}
+					d.k = -d.k
+					if op == token.GTR {
+						op = token.LSS
+					} else {
+						op = token.LEQ
+					}
+				}
+				if op != token.LSS && op != token.LEQ {
+					continue
+				}
+				// d <= -1 (LSS) or d <= 0 (LEQ): Σ coef·len + d.k <= slack
+				slack := int64(0)
+				if op == token.LSS {
+					slack = -1
+				}
+				same := len(d.coef) > 0
+				for p, cf := range total.coef {
+					if d.coef[p] != cf {
+						same = false
+					}
+				}
+				for p, cf := range d.coef {
+					if cf != 0 && total.coef[p] != cf {
+						same = false
+					}
+				}
+				if !same {
+					continue
+				}
+				// Σ len <= slack - d.k  =>  total = Σ len + total.k <= slack - d.k + total.k
+				if slack-d.k+total.k <= b.n {
+					fits = true
+				}
+			}
+			c.r.check(fits, rule, key, fmt.Sprintf("a dominating test bounds the %d-byte buffer's contents", b.n),
+				fmt.Sprintf("the hash input is copied into a %d-byte array and no dominating test guarantees that column, separator and value fit: copy() silently truncates, so long pairs that differ only beyond the cut share an index and their bitmaps merge", b.n), c.w.ipos(first))
+		}
+		// --- separator ---
+		allInstrs(fn, func(i ssa.Instruction) {
+			call, ok := i.(*ssa.Call)
+			if !ok || !hashSinks[calleeName(&call.Call)] || len(call.Call.Args) == 0 {
+				return
+			}
+			parts, ok := concatParts(call.Call.Args[len(call.Call.Args)-1], 0)
+			if !ok {
+				return
+			}
+			found = true
+			adjacent := false
+			for k := 0; k+1 < len(parts); k++ {
+				_, p1 := parts[k].(*ssa.Parameter)
+				_, p2 := parts[k+1].(*ssa.Parameter)
+				if p1 && p2 {
+					adjacent = true
+				}
+			}
+			c.r.check(!adjacent, rule, name+": separator", "column and value are separated in the hash input", "column and value are concatenated without a separator: (\"ab\",\"c\") and (\"a\",\"bc\") get the same index", c.w.ipos(call))
+		})
+	}
+	if !found {
+		c.r.ok(rule, name, "the hash input is not built by a shape this rule examines (append/concatenation chain or fixed buffer); C01.keyflow applies", c.w.pos(gvi.Pos()))
+	}
+}
+
+// concatParts flattens an append chain / string concatenation into its ordered parts (parameters, constants). ok is
+// false when the value is not such a chain.
+func concatParts(v ssa.Value, depth int) ([]ssa.Value, bool) {
+	if depth > 8 {
+		return nil, false
+	}
+	v = peelConv(v)
+	switch x := v.(type) {
+	case *ssa.Parameter:
+		return []ssa.Value{x}, true
+	case *ssa.Const:
+		return []ssa.Value{x}, true
+	case *ssa.Convert:
+		return concatParts(x.X, depth+1)
+	case *ssa.BinOp:
+		if x.Op == token.ADD {
+			a, ok1 := concatParts(x.X, depth+1)
+			b, ok2 := concatParts(x.Y, depth+1)
+			if ok1 && ok2 {
+				return append(a, b...), true
+			}
+		}
+	case *ssa.Call:
+		if b, ok := x.Call.Value.(*ssa.Builtin); ok && b.Name() == "append" && len(x.Call.Args) == 2 {
+			base, ok := concatParts(x.Call.Args[0], depth+1)
+			if !ok {
+				return nil, false
+			}
+			// variadic element(s): a compiler-built one-element slice, or a slice/string spread
+			if el := variadicElem(x.Call.Args[1]); el != nil {
+				return append(base, el), true
+			}
+			rest, ok := concatParts(x.Call.Args[1], depth+1)
+			if !ok {
+				return nil, false
+			}
+			return append(base, rest...), true
+		}
+	}
+	return nil, false
 }
